@@ -79,12 +79,32 @@ pub fn check_cli(c: &CliCase) -> CheckResult {
     ok(c.enc_pipe.is_some() || !c.pw.is_ascii() || c.pw.is_empty() || c.pw.len() > 64, format!("cli/{}/wrong:{}", if c.enc_pipe.is_some() { "pipe" } else { "file" }, label))
 }
 
+/// KESTREL_PASSWORD holding bytes that are not UTF-8: the tool either refuses them, or treats different byte strings as
+/// different passwords - it must never open a file under another byte string than the one it was made with.
+#[derive(Clone, Debug, Serialize, Deserialize)]
+pub struct EnvBytes { pub a: Vec<u8>, pub b: Vec<u8> }
+pub fn check_env_bytes(c: &EnvBytes) -> CheckResult {
+    use crate::cli::Sandbox;
+    if c.a == c.b || gen::hmac_equiv(&c.a, &c.b) || c.a.contains(&0) || c.b.contains(&0) { return ok(false, "skipped"); }
+    let sb = Sandbox::new(); sb.write("p.bin", b"secret text");
+    let mut e = sb.cmd(&["password", "encrypt", "p.bin", "-o", "c.ktl", "--env-pass"]); e.env_os.push(("KESTREL_PASSWORD".into(), c.a.clone()));
+    let r = e.run(); ensure!(matches!(r.code, Some(0) | Some(1)) && r.signal.is_none(), "abnormal end: {}", r.describe());
+    if r.code == Some(1) { ensure!(sb.read("c.ktl").is_none(), "a refused password still produced a file"); return ok(true, "env-bytes/refused"); }
+    let mut d = sb.cmd(&["password", "decrypt", "c.ktl", "-o", "out.bin", "--env-pass"]); d.env_os.push(("KESTREL_PASSWORD".into(), c.b.clone()));
+    let r2 = d.run();
+    ensure!(r2.code == Some(1) && sb.read("out.bin").map(|f| f.is_empty()).unwrap_or(true), "a file made under the password bytes {} opened under the different bytes {} (exit {:?})", kspec::hex(&c.a), kspec::hex(&c.b), r2.code);
+    ok(true, "env-bytes/accepted-and-distinguished")
+}
+
 pub fn run(ctx: &Ctx) {
     set_rule("C02", "(plaintext, password bytes incl. empty / non-UTF-8 / 62..67 bytes / up to 300 bytes, salt, 4 I/O schedules) through pass_encrypt -> pass_decrypt, then decryption under generated wrong passwords (1-bit flip, last byte, strict prefix, appended byte, case change, empty<->non-empty, unrelated) which must fail with zero data written; HMAC-equivalent spellings (w||00, SHA-256(w) for |w|>64) are labelled and only counted. Non-trivial = multi-chunk, or password empty / non-ASCII / >64 bytes, or wrong password at Hamming distance 1; distinct by hash of the case");
     ctx.assume("passwords that are the same HMAC-SHA256 key (RFC 2104 zero padding / pre-hash of keys > 64 bytes) derive the same scrypt key; they are outside the 'other password' quantifier");
     ctx.assume("the shared chunk loop is covered exhaustively for AAD = 65 67 6B 20 by C01 layer B");
     ctx.pbt("pass_roundtrip_wrong", ctx.n(480, 6_000), || strat(if ctx.quick() { 2 } else { 5 }), check);
     ctx.shrink_iters.store(20, std::sync::atomic::Ordering::Relaxed);
-    ctx.pbt("cli_password_mode", ctx.n(48, 1_000), || (prop_oneof![1 => Just(Plain { len: 0, seed: 0 }), 4 => gen::small_plain(3000), 1 => gen::plain_strategy(200_000)], gen::env_password_strategy(), proptest::option::of(proptest::collection::vec(any::<u16>(), 0..6)), any::<bool>(), any::<u64>()).prop_map(|(plain, pw, enc_pipe, dec_stdout, wrong_sel)| CliCase { plain, pw, enc_pipe, dec_stdout, wrong_sel }), check_cli);
+    ctx.pbt("cli_password_mode", ctx.n(48, 1_000), || (prop_oneof![1 => Just(Plain { len: 0, seed: 0 }), 4 => gen::small_plain(3000), 1 => gen::plain_strategy(200_000), 1 => (1usize..40).prop_map(|k| Plain { len: k * 4096, seed: 0 })], gen::env_password_strategy(), proptest::option::of(proptest::collection::vec(any::<u16>(), 0..6)), any::<bool>(), any::<u64>()).prop_map(|(plain, pw, enc_pipe, dec_stdout, wrong_sel)| CliCase { plain, pw, enc_pipe, dec_stdout, wrong_sel }), check_cli);
+    let nb: Vec<EnvBytes> = vec![(b"caf\xe9-2024".to_vec(), b"caf\xe8-2024".to_vec()), (vec![0xff], vec![0x80]), (vec![0xff], "\u{fffd}".as_bytes().to_vec()), (b"pw\xff".to_vec(), b"pw\xfe".to_vec()), (vec![0xc3], vec![0xc3, 0x28]), (vec![0xed, 0xa0, 0x80], vec![0xed, 0xa0, 0x81])].into_iter().map(|(a, b)| EnvBytes { a, b }).collect();
+    ctx.sse_vec("cli_env_password_bytes", "pairs of different non-UTF-8 byte strings in KESTREL_PASSWORD: refused, or told apart", nb, check_env_bytes);
+    ctx.pbt("cli_env_password_bytes_random", ctx.n(24, 400), || (proptest::collection::vec(1u8..=255, 1..12), proptest::collection::vec(1u8..=255, 1..12), any::<u8>()).prop_map(|(a, mut b, k)| { if k % 2 == 0 { b = a.clone(); let i = k as usize % b.len(); b[i] = if b[i] >= 0x80 { if b[i] == 0xff { 0xfe } else { b[i] + 1 } } else { b[i] | 0x80 }; } EnvBytes { a, b } }), check_env_bytes);
     ctx.put("hmac_equivalent_passwords", serde_json::json!({"behaved_like_w": EQUIV_SAME.load(Ordering::Relaxed), "behaved_differently": EQUIV_DIFF.load(Ordering::Relaxed), "note": "informational; excluded from the must-reject set"}));
 }
